@@ -58,8 +58,19 @@ def judge(rep: C.Report, jobs, traces, *, module="SolverTrace", prop_clauses=Non
     known_key(job, trace, clause) -> str | None : key for the known-findings file.
     """
     ok_idx = []
+    guard_fail = {}
     for j, tr in enumerate(traces):
         job = jobs[j]
+        # anti-vacuity: a job built to exercise something particular must really carry it into the model (decided
+        # after judging: a trace the model REJECTS is a violation, never a machinery failure)
+        if tr is not None and "crash" not in tr and "skip" not in tr and not tr.get("error"):
+            n_sw = sum(1 for e in tr.get("ev", []) if e["e"] == "sweep")
+            if job.get("min_sweeps") and n_sw < job["min_sweeps"]:
+                guard_fail[j] = f"job {job.get('tag')} was meant to run {job['min_sweeps']} sweeps, {n_sw} reached the model"
+            if job.get("min_pick"):
+                top = max([p_ for e in tr.get("ev", []) for p_ in e.get("pick", [])] or [0])
+                if top < job["min_pick"]:
+                    guard_fail[j] = f"job {job.get('tag')} was meant to select an action index >= {job['min_pick']}, highest was {top}"
         if tr is None:
             raise C.MachineryError("missing trace")
         if "crash" in tr:
@@ -82,6 +93,9 @@ def judge(rep: C.Report, jobs, traces, *, module="SolverTrace", prop_clauses=Non
     for r in results:
         rep.add_tlc(f"{module} {label}".strip(), r)
     rep.traces += len(payload)
+    for k, j in enumerate(ok_idx):
+        if j in guard_fail and k not in rej:
+            raise C.MachineryError(guard_fail[j])
     n_sweeps = 0
     for k, j in enumerate(ok_idx):
         tr, job = traces[j], jobs[j]
